@@ -14,7 +14,7 @@ pub fn prop() -> Prop {
     Prop {
         id: "C15",
         level: "exploration",
-        rule: "through the public constructors and accessors, in BOTH build profiles (release-like and debug-assertion/overflow-check): every integer of the boundary lattice (round trip, tag, immediacy); ~9 000 ordinary integers (multiples of 2^31 / 2^32 with offsets, round decimals, a fixed multiplicative sequence) incl. equality between neighbours; 4 256 more float bit patterns; seven more function descriptors; strings of 100..1000 bytes differing at every single position; both booleans and null; all 81 (entry offset, local count) pairs from two 9-value boundary sets; 112 float bit patterns (sign x 7 exponents x 4 mantissas, compared by bits); all strings of <= 3 characters over {a, é, 😀, NUL}; strings and integer arrays of every length around each power of two up to 65 537; all arrays of depth <= 2 and width <= 2 over four element values; alignment of every heap box; strings of 7..65 bytes against a copy and against a copy with one byte changed at every position; strings and arrays changed in place through the mutable accessors (7 edits x every small string: equal to a fresh value of the new content, different from the old); and the complete 200 x 200 cross product of a fixed 200-value set: == holds iff same type and same content (NaN excepted) and never panics for scalars, text and functions. A case = one value or one pair; all are non-trivial; distinct = distinct case descriptions",
+        rule: "through the public constructors and accessors, in BOTH build profiles (release-like and debug-assertion/overflow-check): every integer of the boundary lattice (round trip, tag, immediacy); ~9 000 ordinary integers (multiples of 2^31 / 2^32 with offsets, round decimals, a fixed multiplicative sequence) incl. equality between neighbours; 4 256 more float bit patterns, each also compared with 25 neighbours (1-3 units in the last place, single mantissa bits, relative and absolute offsets of 2^-52 .. 2^-40): equal exactly when IEEE says so; seven more function descriptors; strings of 100..1000 bytes differing at every single position; both booleans and null; all 81 (entry offset, local count) pairs from two 9-value boundary sets; 112 float bit patterns (sign x 7 exponents x 4 mantissas, compared by bits); all strings of <= 3 characters over {a, é, 😀, NUL}; strings and integer arrays of every length around each power of two up to 65 537; all arrays of depth <= 2 and width <= 2 over four element values; alignment of every heap box; strings of 7..65 bytes against a copy and against a copy with one byte changed at every position; strings and arrays changed in place through the mutable accessors (7 edits x every small string: equal to a fresh value of the new content, different from the old); and the complete 200 x 200 cross product of a fixed 200-value set: == holds iff same type and same content (NaN excepted) and never panics for scalars, text and functions. A case = one value or one pair; all are non-trivial; distinct = distinct case descriptions",
         assumptions: &["heap values are created through a GC obtained from the facade re-export (verif::GC)", "array == array is outside the property (scalars, text and functions only)"],
         run,
         replay,
@@ -176,6 +176,26 @@ fn run(sh: &mut Shard) {
                 (o.as_f64().to_bits(), o.tag(), o.is_heap_allocated(), verif::addr(o) & 7)
             });
             check(sh, format!("float bits {bits:016x}"), matches!(&r, Ok((b, Type::Float, true, 0)) if *b == bits), || format!("{r:?}"));
+            // neighbours: the patterns 1, 2 and 3 units in the last place away, the one with the lowest mantissa
+            // bit of each byte flipped, and the value times (1 +- 2^-52 .. 2^-40): equal exactly when IEEE says so
+            let x = f64::from_bits(bits);
+            let mut others: Vec<u64> = vec![bits.wrapping_add(1), bits.wrapping_sub(1), bits.wrapping_add(2), bits.wrapping_sub(3), bits ^ 0x100, bits ^ 0x1_0000, bits ^ 0x1_0000_0000];
+            for k in [52, 51, 50, 48, 44, 40] {
+                let e = (2.0f64).powi(-k);
+                others.push((x * (1.0 + e)).to_bits());
+                others.push((x * (1.0 - e)).to_bits());
+                others.push((x + e).to_bits());
+            }
+            for ob in others {
+                let y = f64::from_bits(ob);
+                let want = x == y;
+                let r = guarded(|| {
+                    let a = Object::float(x, &mut gc);
+                    let b = Object::float(y, &mut gc);
+                    (a == b, a != b, b == a)
+                });
+                check(sh, format!("float {bits:016x} == neighbour {ob:016x}"), matches!(r, Ok((e, ne, e2)) if e == want && ne != want && e2 == want), || format!("== / != / reversed == gave {r:?}, IEEE says {want}"));
+            }
         }
     }
     // function descriptors beyond the boundary pairs
